@@ -628,7 +628,7 @@ impl Property for C12 {
         r
     }
     fn rule(&self) -> String {
-        "proptest-generated cases: max_hedged_attempts 1-5, delay in {fixed 1-100 ms, fixed zero, no_delay(), per-attempt function with zeros}, per-attempt latency 0-300 ms and ok/error; virtual clock; about one case in 2000 is instead a stress of parallel-mode hedging on a multi-threaded runtime (2-4 workers, 600/6000 requests whose first k inner calls fail at once, a listener that spends some time per hedge start). Oracle (constraints, not one schedule): inner starts <= max, each with the caller's request; start(k) - start(k-1) >= delay(k); all starts in one instant when every delay is zero; Ok(v) => v is the serial of a started successful attempt delivered at its completion instant, and no started attempt succeeded earlier; all-attempts-failed => exactly max attempts started and each failed no later than the report; the call resolves within the horizon. Non-trivial: an attempt fails while another is still running, or a success and an attempt start share an instant; distinct by hash of the case".into()
+        "proptest-generated cases: max_hedged_attempts 1-5, delay in {fixed 1-100 ms, fixed zero, no_delay(), per-attempt function with zeros}, per-attempt latency 0-300 ms and ok/error; virtual clock; about one case in 2000 is instead a stress of parallel-mode hedging on a multi-threaded runtime (2-4 workers, 600/6000 requests whose first k inner calls fail at once, a listener that spends some time per hedge start). Oracle (constraints, not one schedule): inner starts <= max, each with the caller's request; start(k) - start(k-1) >= delay(k); all starts in one instant when every delay is zero; Ok(v) => v is the serial of a started successful attempt delivered at its completion instant, and no started attempt succeeded earlier; all-attempts-failed => exactly max attempts started and each failed no later than the report; the call resolves within the horizon.Also generated: an event listener, attempts (spawned tasks) running before the hedging future at each instant, the service dropped right after call(), clones of the wrapped service whose readiness check fails (such an attempt counts as failed and started nothing). Non-trivial: an attempt fails while another is still running, or a success and an attempt start share an instant; distinct by hash of the case".into()
     }
     fn assumptions(&self) -> Vec<String> {
         vec![
